@@ -70,6 +70,12 @@ def mutate(rng, frames):
                 cands += [body + 8]                      # Unconnected Send embedded request size
                 body += 10
             cands += [body + 1]                          # request path size (1 byte)
+            if body + 3 < len(f) and f[body + 2] == 0x91 and rng.random() < 0.5:
+                # the length byte of a symbolic segment set to 0 (or off by one): the name's bytes become strays inside the path
+                old8 = f[body + 3]
+                new8 = rng.choice([0, 0, old8 - 1, old8 + 1]) & 0xFF
+                stream[s + body + 3] = new8
+                return 'symlen@%d:%d->%d' % (s + body + 3, old8, new8), bytes(stream)
             psz = f[body + 1] * 2 if body + 1 < len(f) else 0
             after = body + 2 + psz
             cands += [after, after + 2, after + 4, after + 6]   # type / elements / offset, or bundle count / first offsets
@@ -78,7 +84,7 @@ def mutate(rng, frames):
             off = 2
         old = f[off] | (f[off + 1] << 8)
         if off == body + 1 if len(f) > 40 and f[0] == 0x6F else False:
-            new = (f[off] + rng.choice([-1, 1, 2, 100])) & 0xFF
+            new = rng.choice([0, (f[off] + rng.choice([-1, 1, 2, 100])) & 0xFF])
             stream[s + off] = new
             return 'field8@%d:%d->%d' % (s + off, f[off], new), bytes(stream)
         new = rng.choice([0, 1, old - 1, old + 1, old + 2, old * 2, 0xFFFF, 0x8000, old ^ 0x100]) & 0xFFFF
@@ -147,6 +153,47 @@ def run_stream(stream, guard=4.0):
     finally:
         im.close()
     return res
+
+
+def lenient_only(canon, f):
+    """canon = cpppo's re-rendering of what it parsed from f (same length).  The differences are harmless leniency iff every differing
+    field is either re-rendered as zero (a pad / reserved byte that was ignored) or a length field that DECLARED MORE than its enclosing
+    structure holds (the enclosing limit still bounded the parse).  A field that declared less - bytes left over and swallowed by
+    something else - or any other reinterpretation is not."""
+    idx = [i for i, (a, b) in enumerate(zip(canon, f)) if a != b]
+    runs = []
+    for i in idx:
+        if runs and i == runs[-1][-1] + 1:
+            runs[-1].append(i)
+        else:
+            runs.append([i])
+    for r in runs:
+        c = int.from_bytes(bytes(canon[r[0]:r[-1] + 1]), 'little'); o = int.from_bytes(bytes(f[r[0]:r[-1] + 1]), 'little')
+        if not (c == 0 or o > c):
+            return False
+    return True
+
+
+def crafted_streams():
+    """write requests whose path carries a ZERO length / size field followed by the bytes it should have covered: malformed, must
+    not be executed (a zero limit is a limit)"""
+    out = []
+    reg = c02.register_frame()
+    for wr in (('writef', ('sym', 'T', 0), 196, 2, 0, [('i', 0x1111), ('i', 0x2222)]), ('write', ('sym', 'S', 0), 195, 2, [('i', 0x111), ('i', 0x222)]),
+               ('writef', ('sym', 'T', None), 196, 1, 0, [('i', 0x3333)]), ('writef', ('sym', 'TA', None), 195, 2, 0, [('i', 0x444), ('i', 0x555)]),
+               ('write', ('sym', 'TA', 1), 195, 1, [('i', 0x666)])):
+        for wrap in (False, True):
+            f = bytearray(E.build_unconnected(L.py_req(wr), ctx=b'zerofld0', wrap=wrap))
+            body = 24 + 16 + (10 if wrap else 0)
+            if f[body + 2] != 0x91:
+                continue
+            g = bytearray(f); g[body + 3] = 0                      # symbolic segment of length 0, its name left behind as stray bytes
+            out.append(('symlen0', reg + bytes(g)))
+            g = bytearray(f); g[body + 1] = 0                      # path of size 0, its segments left behind
+            out.append(('pathsize0', reg + bytes(g)))
+            g = bytearray(f); g[body + 1] = 1                      # path cut after the segment header
+            out.append(('pathsize1', reg + bytes(g)))
+    return out
 
 
 def run_udp(dgrams, guard=6.0):
@@ -348,7 +395,9 @@ def salvage_bundle(f):
         except Exception:
             break
         if has_write(sem):
-            out.append(E.build_unconnected(member, ctx=b'salvage%d' % (i % 10)))
+            # (as a bundle of one: a member addressed to an object that does not exist would, sent singly, end the session)
+            one = bytes([0x0A, 0x02, 0x20, 0x02, 0x24, 0x01]) + struct.pack('<HH', 1, 4) + member
+            out.append(E.build_unconnected(one, ctx=b'salvage%d' % (i % 10)))
     return out
 
 
@@ -447,7 +496,11 @@ def run(ctx):
     store_enc = L.enc_case((488, c06.TAGS, []))[1:-1]
     names = {t['name'].lower(): k for k, t in enumerate(c06.TAGS)}
     valid = []
-    for i in range(N):
+    crafted = crafted_streams()
+    for i in range(N + len(crafted)):
+        if i >= N:
+            kind, stream = crafted[i - N]
+            session, frames = [], []
         session = c06.gen_session(rng, None)
         # make writes frequent: they are what a corrupted stream could abuse
         session = [x for x in session if x[0][0] != 'unregister']
@@ -457,7 +510,8 @@ def run(ctx):
             # only acknowledged writes change elements) - a refused or half-executed request that leaves a trace shows up here
             r0 = run_stream(b''.join(frames))
             valid.append((session, frames, r0))
-        kind, stream = mutate(rng, frames)
+        if i < N:
+            kind, stream = mutate(rng, frames)
         kinds[kind.split('@')[0].rstrip('0123456789')] = kinds.get(kind.split('@')[0].rstrip('0123456789'), 0) + 1
         r = run_stream(stream)
         worst = max(worst, r['seconds'])
@@ -491,7 +545,8 @@ def run(ctx):
                             sem, left = K.impl_parse_frame(f)
                             canon = K.impl_produce_frame(sem)
                             d2 = c01.model_dec(0, 0, [canon])[0]
-                            if left == 0 and len(canon) == len(f) and d2 is not None and sum(a != b for a, b in zip(canon, f)) <= 3:
+                            if (left == 0 and len(canon) == len(f) and d2 is not None and sum(a != b for a, b in zip(canon, f)) <= 3
+                                    and lenient_only(canon, f)):
                                 semc = K.tree_frame(d2[0])
                                 wr = any(has_write((it.get('msg') or {}).get('msg')) for it in (semc.get('cpf') or []))
                                 fl = 'ok-write' if wr else 'ok'
@@ -532,7 +587,7 @@ def run(ctx):
     ctx.sample(dict(example_mutations=sorted(kinds)[:8]))
     ctx.assumptions += ['hang-freedom, exception containment and liveness are observed at run time (time guard, in-process connection handler, one TCP listener); '
                         'the theorems carry the logic only (which inputs may change tags, complete-frames-only, limits, cycle bound)',
-                        'the reference decoder decides "complete, well-formed write"; bytes cpppo ignores (pads, reserved) are tolerated via cpppo\'s own re-rendering when <= 3 bytes differ']
+                        'the reference decoder decides "complete, well-formed write"; bytes cpppo ignores (pads, reserved) are tolerated via cpppo\'s own re-rendering when <= 3 bytes differ and each differing field is re-rendered as zero or had declared more than its enclosing structure holds']
 
 
 def replay(ctx, rep):
